@@ -849,6 +849,24 @@ static size_t safec_etoa(out_fct_type out, const char *funcname, char *buffer,
 #endif // PRINTF_SUPPORT_EXPONENTIAL
 #endif // PRINTF_SUPPORT_FLOAT
 
+#ifdef PRINTF_SUPPORT_FLOAT
+// copy of the current directive for the libc fallbacks. NULL (after
+// reporting it) when out of memory.
+static char *safec_fmtdup(const char *funcname, char *buffer,
+                          const char *startformat, unsigned off) {
+    char *s = (char *)malloc(off + 1);
+    if (unlikely(!s)) {
+        char msg[80];
+        snprintf(msg, sizeof msg, "%s: malloc format failed", funcname);
+        invoke_safe_str_constraint_handler(msg, buffer, 1);
+        return NULL;
+    }
+    memcpy(s, startformat, off);
+    s[off] = '\0';
+    return s;
+}
+#endif
+
 // internal vsnprintf, extended for _s.
 // already checked in the caller
 // mingw has a _vsnprintf_s(char *_DstBuf,size_t _DstSize,size_t _MaxCount,const
@@ -1104,9 +1122,9 @@ int safec_vsnprintf_s(out_fct_type out, const char *funcname, char *buffer,
             if (flags & FLAGS_LONG_DOUBLE) {
                 if (*format) {
                     unsigned off = format - startformat;
-                    char *s = (char *)malloc(off + 1);
-                    memcpy(s, startformat, off);
-                    s[off] = '\0';
+                    char *s = safec_fmtdup(funcname, buffer, startformat, off);
+                    if (unlikely(!s))
+                        return -1;
                     idx = safec_ftoa_long(out, funcname, buffer, idx, bufsize,
                                           va_arg(va, long double), precision,
                                           width, flags, s);
@@ -1137,9 +1155,9 @@ int safec_vsnprintf_s(out_fct_type out, const char *funcname, char *buffer,
             if (flags & FLAGS_LONG_DOUBLE) {
                 if (*format) {
                     unsigned off = format - startformat;
-                    char *s = (char *)malloc(off + 1);
-                    memcpy(s, startformat, off);
-                    s[off] = '\0';
+                    char *s = safec_fmtdup(funcname, buffer, startformat, off);
+                    if (unlikely(!s))
+                        return -1;
                     idx = safec_etoa_long(out, funcname, buffer, idx, bufsize,
                                           va_arg(va, long double), precision,
                                           width, flags, s);
@@ -1165,9 +1183,9 @@ int safec_vsnprintf_s(out_fct_type out, const char *funcname, char *buffer,
             if (flags & FLAGS_LONG_DOUBLE) {
                 if (*format) {
                     unsigned off = format - startformat;
-                    char *s = (char *)malloc(off + 1);
-                    memcpy(s, startformat, off);
-                    s[off] = '\0';
+                    char *s = safec_fmtdup(funcname, buffer, startformat, off);
+                    if (unlikely(!s))
+                        return -1;
                     idx = safec_atoa_long(out, funcname, buffer, idx, bufsize,
                                           va_arg(va, long double), precision,
                                           width, flags, s);
@@ -1182,9 +1200,9 @@ int safec_vsnprintf_s(out_fct_type out, const char *funcname, char *buffer,
             {
                 if (*format) {
                     unsigned off = format - startformat;
-                    char *s = (char *)malloc(off + 1);
-                    memcpy(s, startformat, off);
-                    s[off] = '\0';
+                    char *s = safec_fmtdup(funcname, buffer, startformat, off);
+                    if (unlikely(!s))
+                        return -1;
                     idx = safec_atoa(out, funcname, buffer, idx, bufsize,
                                      va_arg(va, double), precision, width,
                                      flags, s);
